@@ -923,6 +923,9 @@ def _minimize(generation_result, algorithm=None):
                             test_suite_minimizer.removed_test_cases,
                         )
 
+            # The visitors change the test cases in place: without this the suite would
+            # answer with the coverage values it cached before the minimization.
+            generation_result.changed = True
             minimized_coverages = [
                 generation_result.get_coverage_for(fitness_function)
                 for fitness_function in fitness_functions
@@ -938,8 +941,11 @@ def _minimize(generation_result, algorithm=None):
                 # Mark the test suite as changed
                 generation_result.changed = True
                 # Verify that coverage is restored
-                restored_coverage = generation_result.get_coverage_for(fitness_functions)
-                _LOGGER.info("Coverage after restoration: %.4f", restored_coverage)
+                restored_coverages = [
+                    generation_result.get_coverage_for(fitness_function)
+                    for fitness_function in fitness_functions
+                ]
+                _LOGGER.info("Coverage after restoration: %s", restored_coverages)
 
         else:
             unused_primitives_removal = pp.TestCasePostProcessor([unused_vars_minimizer])
